@@ -1,6 +1,7 @@
 import ZkElGamal.Model.Decode
 import ZkElGamal.Model.Text
 import ZkElGamal.Driver.Sigma
+import ZkElGamal.Model.Range
 /-!
 Driver ops for encryption objects (C08, C09, C11, C12):
   decode <codec> <hex>          → ok:<re-encoded hex> | err | P
@@ -35,6 +36,12 @@ def decodeOp (codec : String) (b : Bytes) : String :=
   | "gct3" => outHex (decodeGrouped (Pt := CPt) 3 b) GCt.enc
   | "aekey" => outHex (decodeAeKey b) id
   | "aect" => outHex (decodeAeCiphertext b) (fun (n, c) => n ++ c)
+  | "rctx" =>
+    -- the 264-byte context of the batched range proofs: decoded to (commitments, bit lengths) and re-encoded
+    if b.length ≠ 264 then "err" else
+    match Range.parseContext (Pt := CPt) b with
+    | some (comms, bls) => if comms.length > 8 then "err" else s!"ok:{hexOut (Range.encodeContext comms bls)}"
+    | none => "err"
   | _ => "bad-op"
 
 /-- (byte length, max base64 length) of the Pod types with `FromStr` -/
